@@ -434,7 +434,8 @@ def gen_cases(ctx):
         out.append({"k": "bulk", "n": n, "dead": dead, "more": more})
     import c06
 
-    for d in c06.gen_cases(ctx)[: (25 if ctx.quick else 200)]:
+    # (the generated histories of C06; its fixed scale / option families come with their own layout and split)
+    for d in [d for d in c06.gen_cases(ctx) if d.get("k") not in ("scale", "opts")][: (25 if ctx.quick else 200)]:
         d["layout"] = "sparse"
         d["numrec"] = rng.choice([1, 2, 2, 3])
         out.append({"k": "records", "c06": d})
